@@ -99,7 +99,8 @@ def obligations(repo):
     CALLH = "harness/cop_call_h.c"
     CREPL = ["cop_serialize_value", "cop_deserialize_value", "cop_send", "cop_recv_header", "cop_recv_payload", "vm_ffi_call", "vm_ffi_cop_start"]
     obs.append(dict(id="C16.call", prop="C16", harness=CALLH, entry="h_call", enforce="vm_ffi_call_cop", replace=CREPL, sources=["src/nanovm/cop_protocol.c"],
-                    unwind=18, strength="U", functions=["vm_ffi_call_cop", "vm_ffi_cop_stop", "cop_ensure", "cop_is_alive"], timeout=900,
+                    defines={"VERIF_COP_MAX_SCALED": 32768},
+                    unwind=18, strength="B(protocol constant COP_MAX_PAYLOAD scaled from 16 MiB to 32 KiB in the TU under proof)", functions=["vm_ffi_call_cop", "vm_ffi_cop_stop", "cop_ensure", "cop_is_alive"], timeout=900, 
                     must_have=[r"vm_ffi_call_cop\.postcondition", r"cop_deserialize_value\.precondition", r"cop_recv_payload\.precondition",
                                r"OS: waitpid", r"COVER"], min_checks=100, weight=20))
     obs.append(dict(id="C16.stop", prop="C16", harness=CALLH, entry="h_stop", enforce="vm_ffi_cop_stop", replace=["cop_send"], sources=["src/nanovm/cop_protocol.c"],
